@@ -378,6 +378,58 @@ func checkMsgQuiet(m wm.Msg, key string, nontrivial bool) error {
 	return nil
 }
 
+// one Msg value used for several messages in a row: nothing of the earlier message may survive
+type reuseCase struct {
+	A, B wm.Msg
+}
+
+func checkReuse(c reuseCase) error {
+	wa, errA := wm.Encode(c.A)
+	wb, errB := wm.Encode(c.B)
+	if errA != nil || errB != nil {
+		return nil
+	}
+	pbt.Note(append(append([]byte{}, wa...), wb...), len(c.A.AllRecs()) > 0 && len(c.B.AllRecs()) < len(c.A.AllRecs()), fmt.Sprintf("b-records=%d", min(len(c.B.AllRecs()), 4)))
+	var u dns.Msg
+	if err := u.Unpack(wa); err != nil {
+		return nil
+	}
+	// pack twice: the bookkeeping of the first Pack (RDLENGTH, OPT TTL) must not change the second
+	p1, err1 := u.Pack()
+	p2, err2 := u.Pack()
+	if err1 == nil && (err2 != nil || !bytes.Equal(p1, p2)) {
+		return pbt.Errf("packing the same message twice gives different results (err=%v): %s", err2, hexdiff(p2, p1))
+	}
+	if err := u.Unpack(wb); err != nil {
+		return pbt.Errf("second Unpack into a used Msg failed: %v", err)
+	}
+	m2, err := wm.MsgFromLib(&u, true)
+	if err != nil {
+		return pbt.Errf("reused Msg cannot be read back: %v", err)
+	}
+	w2, err := wm.Encode(m2)
+	if err != nil || !bytes.Equal(w2, wb) {
+		return pbt.Errf("unpacking message B into a Msg that held message A gives neither: %s", hexdiff(w2, wb))
+	}
+	return nil
+}
+
+func genReuse(t *rapid.T) reuseCase {
+	a := genMsg(t).M
+	a.Rcode &= 0xF
+	var b wm.Msg
+	switch rapid.IntRange(0, 3).Draw(t, "bkind") {
+	case 0: // header only
+		b = wm.Msg{ID: uint16(gen.UintB(t, 16)), Flags: uint16(rapid.IntRange(0, 4095).Draw(t, "f")) << 4}
+	case 1: // question only
+		b = wm.Msg{ID: 7, Flags: wm.FlagRD, Q: []wm.Question{{Name: gen.Name(t, gen.NameOpts{MaxLabs: 3}), Type: 1, Class: 1}}}
+	default:
+		b = genMsg(t).M
+		b.Rcode &= 0xF
+	}
+	return reuseCase{A: a, B: b}
+}
+
 // RDATA of exactly 65535 octets packs, 65536 must be refused (never wrapped)
 type bigCase struct {
 	Type uint16
@@ -462,6 +514,21 @@ func init() {
 		}
 		return nil
 	})
+	// ISDN: the sub-address is optional on the wire (RFC 1183 3.2); the generator always writes both
+	// strings because the library cannot represent "absent" (see KNOWN_FINDINGS isdn-no-subaddress)
+	pbt.Probe("isdn-no-subaddress", func() error {
+		w := []byte{1, 'a', 0, 0, 20, 0, 1, 0, 0, 0, 5, 0, 4, 3, '1', '5', '0'}
+		rr, _, err := dns.UnpackRR(w, 0)
+		if err != nil {
+			return nil
+		}
+		buf := make([]byte, 64)
+		n, err := dns.PackRR(rr, buf, 0, nil, false)
+		if err != nil || !bytes.Equal(buf[:n], w) {
+			return pbt.Errf("ISDN with an address only (RDATA 03 31 35 30) re-packs as %x (err=%v)", buf[:n], err)
+		}
+		return nil
+	})
 	pbt.Probe("amtrelay-dbit", func() error {
 		return checkRR(rrCase{R: wm.Rec{Name: wm.MustName("a."), Type: wm.TAMTRELAY, Class: 1, Fields: []wm.Field{
 			{K: wm.U8, U: 10}, {K: wm.U8, U: 0x81}, {K: wm.GW, U: 1, B: []byte{192, 0, 2, 1}}}}})
@@ -473,6 +540,7 @@ func init() {
 
 	pbt.Register(pbt.Sub[msgCase]{Name: "message", Weight: 10, Gen: genMsg, Check: checkMsg})
 	pbt.Register(pbt.Sub[rrCase]{Name: "record", Weight: 30, Gen: genRR, Check: checkRR})
+	pbt.Register(pbt.Sub[reuseCase]{Name: "msg-value-reused", Weight: 4, Gen: genReuse, Check: checkReuse})
 	pbt.RegisterEnum(pbt.Enum[rrCase]{Name: "record-boundary-sweep", Each: eachType, Check: checkRR})
 	pbt.RegisterEnum(pbt.Enum[hdrCase]{Name: "header-words-exhaustive", Exhaustive: true, Each: func(emit func(hdrCase)) {
 		step := 1
